@@ -5,7 +5,11 @@
    log records every stat, readdir, chmod, exec, RemoveAll, MkdirAll and file
    write the modelled code performs, with the path it is performed on.
      allowed root name = <clean root>/<name>
-     withinb a p       = p is a or lies below a *)
+     withinb a p       = p is a or lies below a
+   Further theorems (the rejection clause stated on the computed path, exact
+   effect logs, histories of operations, the verifier's fragment in full, what
+   is false for Install) are in props/C16_Audit.v; the clause-by-clause audit is
+   docs/audit/C16.md. *)
 From NV Require Import Base C16_Path C16_Model C16_Proofs.
 Open Scope string_scope.
 
